@@ -1,40 +1,38 @@
 (* Tie between the comparators / filters translated from processor.go and metadata.go (regenerated
    on every run) and the model. *)
-From Coq Require Import ZArith Bool Lia List.
+From Coq Require Import ZArith Bool Lia List ZifyBool.
 From SV Require Import Parser.Protocol Resolve.Op Resolve.Apply Resolve.Process Gen.Kernels GenTie.Window.
 Import ListNotations.
 Local Open Scope Z_scope.
 
 Theorem processor_sortLess_tie a b : gen_processor_sortLess a b = op_lt a b.
 Proof.
-  unfold gen_processor_sortLess, op_lt.
-  destruct (time a =? time b) eqn:E; cbn [negb andb].
-  - apply Z.eqb_eq in E. rewrite E, Z.ltb_irrefl. reflexivity.
-  - destruct (time a <? time b); reflexivity.
+  unfold gen_processor_sortLess, op_lt. tie.
 Qed.
 
 Theorem metadata_sortLess_tie a b : gen_metadata_sortLess a b = op_lt a b.
 Proof.
-  unfold gen_metadata_sortLess, op_lt.
-  destruct (time a =? time b) eqn:E; cbn [negb andb].
-  - apply Z.eqb_eq in E. rewrite E, Z.ltb_irrefl. reflexivity.
-  - destruct (time a <? time b); reflexivity.
+  unfold gen_metadata_sortLess, op_lt. tie.
 Qed.
 
 Theorem processor_createLess_tie a b : gen_processor_createLess a b = published a && negb (published b).
-Proof. unfold gen_processor_createLess, published. rewrite negb_involutive. reflexivity. Qed.
+Proof. unfold gen_processor_createLess, published. tie. Qed.
 
 Theorem processor_isOpAfter_tie p o t n : gen_processor_isOpAfter p o t n = op_after t n o.
 Proof.
-  unfold gen_processor_isOpAfter, op_after, published.
-  destruct (cref o =? 0); cbn [negb]; [reflexivity|].
-  destruct (time o <? t); [reflexivity|]. destruct (time o >? t); [reflexivity|].
-  destruct (num o >? n); reflexivity.
+  unfold gen_processor_isOpAfter, op_after, published. tie.
 Qed.
 
+(* vt is time.Time.Unix(), an int64 (negative before 1970); transaction times are unsigned *)
 Theorem processor_versionTimeGuard_tie p vt o :
-  0 <= vt < 2^64 -> gen_processor_versionTimeGuard p vt o = (time o <=? vt).
-Proof. intros H. unfold gen_processor_versionTimeGuard. rewrite to_uint64_id by exact H. reflexivity. Qed.
+  - 2^63 <= vt < 2^63 -> 0 <= time o -> gen_processor_versionTimeGuard p vt o = (time o <=? vt).
+Proof.
+  intros H Ht. unfold gen_processor_versionTimeGuard.
+  destruct (Z_lt_le_dec vt 0) as [Hn|Hp].
+  - (* before the epoch: no operation is selected *)
+    replace (time o <=? vt) with false by lia. tie.
+  - rewrite (to_uint64_id vt) by lia. tie.
+Qed.
 
 (* sort.SliceStable with the create comparator is the stable partition the model uses *)
 Lemma insert_partitioned x : forall pl ul,
